@@ -1,5 +1,6 @@
 (* C10 driver.  argv[1] = cases, argv[2] = "-" (implementation output not needed), argv[3] = variant:
-     repaired | defective | def_hb (only the dual-standby defect) | def_if (only the interface-count defect)
+     repaired | defective (all three defects) | def_<d>[_<d>...] with d in hb (dual standby never promotes),
+   if (interface notifications counted), fc (first heartbeat after a loss only recorded): exactly those defects
    case:  idA prioA preA decA nifsA idB prioB preB decB nifsB op*
    ops:   st<w> sd<w> dl<w>:<i> dr<w>:<i> pl<w> pt<w> dn<w>:<k> up<w>:<k> de<w>:<k> sw<w>:<f> rs<w> SW<w>:<f>
           (w = 0 for node A, 1 for node B; SW = local switchover + delivered RPC = sw<w>:<f> then rs<other>)
@@ -40,12 +41,14 @@ let events_of_token tok : ev list =
   | "SW" -> [ESwLocal (w, arg tok = 1); ESwRemote (other w)]
   | _ -> failwith ("bad op " ^ tok)
 let () =
-  let v = match (if Array.length Sys.argv > 3 then Sys.argv.(3) else "repaired") with
-    | "repaired" -> { fix_hb = true; fix_if = true }
-    | "defective" -> { fix_hb = false; fix_if = false }
-    | "def_hb" -> { fix_hb = false; fix_if = true }
-    | "def_if" -> { fix_hb = true; fix_if = false }
-    | s -> failwith ("unknown variant " ^ s) in
+  let vname = if Array.length Sys.argv > 3 then Sys.argv.(3) else "repaired" in
+  let v =
+    if vname = "repaired" then { fix_hb = true; fix_if = true; fix_fc = true }
+    else if vname = "defective" then { fix_hb = false; fix_if = false; fix_fc = false }
+    else match String.split_on_char '_' vname with
+      | "def" :: ds when ds <> [] && List.for_all (fun d -> List.mem d ["hb"; "if"; "fc"]) ds ->
+        { fix_hb = not (List.mem "hb" ds); fix_if = not (List.mem "if" ds); fix_fc = not (List.mem "fc" ds) }
+      | _ -> failwith ("unknown variant " ^ vname) in
   let lines = read_lines Sys.argv.(1) in
   List.iter (fun line ->
     match tokens line with
